@@ -342,6 +342,94 @@ func (P *Program) runStructural(spec string) []StructObl {
 			return fail("no access to %s.%s found (renamed?)", fs[1], fs[2])
 		}
 		return ok(fmt.Sprintf("%d accessor function(s), all hold the lock", checked))
+	case "channel-readers":
+		// channel-readers <chanField> <fn,fn,...>: only the listed functions (and closures inside them) take values out of
+		// the channel kept in the named struct field.  A hand-off channel is a one-place mailbox between two goroutines; a
+		// receive anywhere else (a "drain before send" on the producer side, say) silently discards what was handed over.
+		allowed := map[string]bool{}
+		for _, f := range strings.Split(fs[2], ",") {
+			allowed[f] = true
+		}
+		suffix := "." + fs[1]
+		isField := func(fn *ssa.Function, ch ssa.Value) bool {
+			seen := map[ssa.Value]bool{}
+			var rec func(v ssa.Value, depth int) bool
+			rec = func(v ssa.Value, depth int) bool {
+				if v == nil || seen[v] || depth > 4 {
+					return false
+				}
+				seen[v] = true
+				if strings.HasSuffix(P.describeValue(v), suffix) {
+					return true
+				}
+				// through a local variable: every value stored into it
+				if u, ok := v.(*ssa.UnOp); ok && u.Op == token.MUL {
+					if a, ok := u.X.(*ssa.Alloc); ok {
+						for _, ref := range *a.Referrers() {
+							if st, ok := ref.(*ssa.Store); ok && st.Addr == a && rec(st.Val, depth+1) {
+								return true
+							}
+						}
+					}
+				}
+				if ct, ok := v.(*ssa.ChangeType); ok {
+					return rec(ct.X, depth+1)
+				}
+				if ph, ok := v.(*ssa.Phi); ok {
+					for _, e := range ph.Edges {
+						if rec(e, depth+1) {
+							return true
+						}
+					}
+				}
+				return false
+			}
+			return rec(ch, 0)
+		}
+		found := 0
+		for _, fn := range P.allRepoFuncs() {
+			if !P.isLibrary(fn) {
+				continue
+			}
+			inAllowed := false
+			for g := fn; g != nil; g = g.Parent() {
+				if allowed[P.fnKey(g)] {
+					inAllowed = true
+				}
+			}
+			for _, b := range fn.Blocks {
+				for _, ins := range b.Instrs {
+					var ch ssa.Value
+					var pos token.Pos
+					switch x := ins.(type) {
+					case *ssa.UnOp:
+						if x.Op == token.ARROW {
+							ch, pos = x.X, x.Pos()
+						}
+					case *ssa.Select:
+						for _, st := range x.States {
+							if st.Dir == types.RecvOnly && isField(fn, st.Chan) {
+								ch, pos = st.Chan, st.Pos
+								if !pos.IsValid() {
+									pos = x.Pos()
+								}
+							}
+						}
+					}
+					if ch == nil || !isField(fn, ch) {
+						continue
+					}
+					found++
+					if !inAllowed {
+						return fail("%s receives from %s at %s; only %s may take values out of that channel", P.fnKey(fn), fs[1], P.fset.Position(pos), fs[2])
+					}
+				}
+			}
+		}
+		if found == 0 {
+			return fail("no receive from %s found (renamed?)", fs[1])
+		}
+		return ok(fmt.Sprintf("%d receive site(s), all in %s", found, fs[2]))
 	case "lock-balanced":
 		// lock-balanced: in every library function, a mutex locked on some path is unlocked again, or its unlock is
 		// deferred, on every path to a return (a return that leaves a non-reentrant mutex held wedges the next caller for
